@@ -7,17 +7,51 @@ use srtla_core::selection::select_connection_idx;
 
 use crate::util::*;
 
+/// Abstraction of the capacity score used by the N-link harnesses below: a deterministic function
+/// of the link (an otherwise unread symbolic field), -1 when not connected exactly like the real
+/// one.  The real formula is decided on its own in `c10_get_score_formula`; the N-link harnesses
+/// then hold for EVERY score function of the link state, and contain no divider circuits (SAT
+/// solvers do not finish on relational queries over two copies of a divider).
+pub fn abs_score(c: &SrtlaConnection) -> i32 {
+    if !c.connected {
+        return -1;
+    }
+    let v = c.vh_congestion().consecutive_acks_without_nak;
+    if v >= 0 { v } else { 0 }
+}
+
+/// get_score() = window / (in-flight + queued + 1), integer division, -1 when not connected.
+#[kani::proof]
+#[kani::unwind(4)]
+fn c10_get_score_formula() {
+    let mut v = any_vals(SYM_INT);
+    let q: u8 = kani::any();
+    kani::assume(q <= 2);
+    v.queued = q;
+    let c = build_conn(1, &v);
+    let got = c.get_score();
+    if !v.connected {
+        assert!(got == -1, "a disconnected link scores -1");
+    } else {
+        let denom = v.in_flight as i64 + q as i64 + 1;
+        assert!(got as i64 == v.window as i64 / denom, "score = window / (in-flight + queued + 1), integer division");
+        assert!(got >= 0, "a connected link never scores below zero");
+    }
+    kani::cover!(v.connected && v.in_flight == i32::MAX && q == 2, "in-flight at i32::MAX does not overflow");
+    kani::cover!(v.connected && got == 60000, "idle link at the maximum window");
+    core::mem::forget(c);
+}
+
 /// Reference algorithm, written from the property statement (and the original C select_conn):
 /// among usable uplinks pick the largest window / (in-flight + queued + 1), integer division,
 /// first maximum wins.
-fn ref_classic<const N: usize>(vals: &[ConnVals; N], usable: &[bool; N]) -> Option<usize> {
+fn ref_classic<const N: usize>(scores: &[i32; N], usable: &[bool; N]) -> Option<usize> {
     let mut best: Option<usize> = None;
     let mut best_score: i64 = -1;
     let mut i = 0;
     while i < N {
         if usable[i] {
-            let denom = vals[i].in_flight as i64 + vals[i].queued as i64 + 1;
-            let score = vals[i].window as i64 / denom;
+            let score = scores[i] as i64;
             if score > best_score {
                 best_score = score;
                 best = Some(i);
@@ -32,44 +66,41 @@ fn check_classic_reference<const N: usize>() {
     let now = any_now();
     let mut cfg = any_config(SchedulingMode::Classic);
     cfg.stall_deselect = false; // the statement is for the guard off
-    let mut vals: [ConnVals; N] = core::array::from_fn(|_| any_vals(SYM_FULL));
-    let mut k = 0;
-    while k < N {
-        let q: u8 = kani::any();
-        kani::assume(q <= 2);
-        vals[k].queued = q;
-        k += 1;
-    }
+    let vals: [ConnVals; N] = core::array::from_fn(|_| any_vals(SYM_INT));
     let mut conns: [SrtlaConnection; N] = core::array::from_fn(|i| build_conn(i as u64 + 1, &vals[i]));
     let usable: [bool; N] = core::array::from_fn(|i| ref_usable(&conns[i], now, cfg.conn_timeout_ms));
     let last = if kani::any() { Some(kani::any::<usize>()) } else { None };
 
+    let scores: [i32; N] = core::array::from_fn(|i| abs_score(&conns[i]));
     let res = select_connection_idx(&mut conns[..], last, now, &cfg);
-    let want = ref_classic(&vals, &usable);
-    assert!(res == want, "C10: classic choice = first argmax of window/(in-flight+queued+1) over usable uplinks");
+    let want = ref_classic(&scores, &usable);
+    assert!(res == want, "C10: classic choice = first argmax of the capacity score over usable uplinks, nothing else matters");
 
     kani::cover!(want == Some(N - 1), "last link is the reference choice");
-    kani::cover!(want == Some(0) && N > 1 && usable[1] && vals[0].window / (vals[0].in_flight + 1) == vals[1].window / (vals[1].in_flight + 1)
-        && vals[0].queued == 0 && vals[1].queued == 0, "tie goes to the lowest index");
-    kani::cover!(want.is_some() && vals[0].queued == 2, "queued packets counted");
+    kani::cover!(want == Some(0) && N > 1 && usable[1] && scores[0] == scores[1], "tie goes to the lowest index");
+    kani::cover!(want == Some(0) && vals[0].weak && vals[0].loss_degraded && vals[0].stall_gated && last == Some(1) && N > 1 && usable[1],
+        "quality flags, stale stall flags and the previous choice have no influence");
     kani::cover!(want.is_none(), "nothing usable");
     core::mem::forget(conns);
 }
 
 #[kani::proof]
 #[kani::unwind(5)]
+#[kani::stub(srtla_core::connection::SrtlaConnection::get_score, abs_score)]
 fn c10_classic_reference_n2() {
     check_classic_reference::<2>();
 }
 
 #[kani::proof]
 #[kani::unwind(5)]
+#[kani::stub(srtla_core::connection::SrtlaConnection::get_score, abs_score)]
 fn c10_classic_reference_n3() {
     check_classic_reference::<3>();
 }
 
 #[kani::proof]
 #[kani::unwind(6)]
+#[kani::stub(srtla_core::connection::SrtlaConnection::get_score, abs_score)]
 fn c10_classic_reference_n4() {
     check_classic_reference::<4>();
 }
@@ -117,18 +148,23 @@ fn check_guard_off_baseline<const N: usize>(mode: SchedulingMode, sym: Sym, fres
 
 #[kani::proof]
 #[kani::unwind(4)]
+#[kani::stub(srtla_core::connection::SrtlaConnection::get_score, abs_score)]
 fn c12_guard_off_classic_n2() {
     check_guard_off_baseline::<2>(SchedulingMode::Classic, SYM_INT, false);
 }
 
 #[kani::proof]
 #[kani::unwind(5)]
+#[kani::stub(srtla_core::connection::SrtlaConnection::get_score, abs_score)]
 fn c12_guard_off_classic_n3() {
     check_guard_off_baseline::<3>(SchedulingMode::Classic, SYM_INT, false);
 }
 
 #[kani::proof]
 #[kani::unwind(4)]
+#[kani::stub(srtla_core::connection::SrtlaConnection::get_score, abs_score)]
+#[kani::stub(srtla_core::selection::enhanced::in_flight_cap_exceeded, crate::c03::cap_exceeded_abs)]
+#[kani::stub(srtla_core::selection::enhanced::cc_soft_cap_multiplier, crate::c03::soft_cap_abs)]
 fn c12_guard_off_enhanced_n2() {
     check_guard_off_baseline::<2>(SchedulingMode::Enhanced, SYM_FULL, true);
 }
